@@ -202,10 +202,10 @@ func ruleArgsCodec(c *Ctx, rule string) {
 			switch fieldName(fa.X.Type(), fa.Field) {
 			case "IP":
 				if typeNameOf(fa.X.Type()) == "IPConfig" {
-					okIP = sameParam(root, fn.Params[0]) && len(path) >= 1 && path[0] == "IP" || dependsOn(st.Val, func(x ssa.Value) bool { return isFieldLoadNamed(x, "IP") })
+					okIP = sameParam(root, pAt(fn, 0)) && len(path) >= 1 && path[0] == "IP" || dependsOn(st.Val, func(x ssa.Value) bool { return isFieldLoadNamed(x, "IP") })
 				}
 			case "Gateway":
-				okGW = sameParam(root, fn.Params[0]) && len(path) == 1 && path[0] == "Gateway"
+				okGW = sameParam(root, pAt(fn, 0)) && len(path) == 1 && path[0] == "Gateway"
 			}
 		})
 		c.ob(rule, fn, "result address/mask and gateway come from the given IPInfo", nil, okIP && okGW, "IPConfig.IP = *ipInfo.IP, IPConfig.Gateway = ipInfo.Gateway")
@@ -319,7 +319,7 @@ func ruleReportedInRequestOrder(c *Ctx, rule string) {
 	}
 	isRaw := func(v ssa.Value) bool { return pathEndsWith(v, "RequestIPRange") }
 	for _, l := range looks {
-		c.ob(rule, fn, "every lookup of the pod's ips uses the full requested ranges", l, isRaw(callArgs(l)[1]) && sameParam(callArgs(l)[0], fn.Params[1]), "ByKeyAndIPRanges(key, cniArgs.RequestIPRange): entry i answers range i")
+		c.ob(rule, fn, "every lookup of the pod's ips uses the full requested ranges", l, isRaw(callArgs(l)[1]) && sameParam(callArgs(l)[0], pAt(fn, 1)), "ByKeyAndIPRanges(key, cniArgs.RequestIPRange): entry i answers range i")
 	}
 	// the list stored into Common.IPInfos is built by one loop over a lookup result (possibly the re-read one)
 	allInstrs(fn, func(in ssa.Instruction) {
@@ -419,7 +419,10 @@ func ruleDecoderPerIP(c *Ctx, rule string) {
 			return
 		}
 		if _, ok := dst.X.(*ssa.Alloc); !ok {
-			return
+			// vlanIDs[j] = .. into a pre-sized slice instead of append: the index must be the loop's j
+			if dst.Index != ia.Index {
+				return
+			}
 		}
 		// only the append inside the loop over the decoded list
 		if loopHeaderOf(st) == nil || loopHeaderOf(st) != loopHeaderOf(conv[0]) {
